@@ -236,6 +236,16 @@ class RaiseSig(Exception):
         self.node = node
 
 
+def _package_modules(repo):
+    """the modules of the package, the well-known ones first (a helper module added by a refactoring is found too)"""
+    first = ['value', 'parser', 'library', 'runtime', 'model', 'data', 'options', 'bare']
+    try:
+        names = repo.all_module_names()
+    except Exception:
+        names = []
+    return [n for n in first if n in names or not names] + [n for n in names if n not in first]
+
+
 class ModuleFunc:
     def __init__(self, node, mod=None):
         self.node = node
@@ -321,7 +331,11 @@ class Interp:
                 if s.finalbody:
                     self.exec_block(s.finalbody, env)
         elif isinstance(s, ast.Assert):
-            if not self.truth(self.eval(s.test, env), s.test):
+            try:
+                holds = self.truth(self.eval(s.test, env), s.test)
+            except Unrecognised:
+                holds = True        # a stated belief whose test is over abstract values: assumed to hold (the concrete evaluations do test it)
+            if not holds:
                 raise RaiseSig('AssertionError', ((self.eval(s.msg, env),) if s.msg is not None else ()), s)
         elif isinstance(s, ast.Raise):
             if s.exc is None:
@@ -728,6 +742,14 @@ class Interp:
             if e.id in self.mod.imports and getattr(self, 'repo', None) is not None:
                 modname, orig = self.mod.imports[e.id]
                 other = self.repo.resolve_module(modname)
+                # a name the other module itself imports from a third module of the package (re-export): follow it to where it is defined
+                hops = 0
+                while other is not None and orig not in other.classes and orig not in other.funcs and orig not in other.assigns and orig in other.imports and other.imports[orig][1] is not None \
+                        and hops < 4:
+                    nxt = self.repo.resolve_module(other.imports[orig][0])
+                    if nxt is None:
+                        break
+                    other, orig, hops = nxt, other.imports[orig][1], hops + 1
                 if other is not None:
                     if orig in other.classes:
                         return ('class', orig)
@@ -1266,6 +1288,13 @@ class Interp:
                 return Sym('external', fn[1], fn[2])        # a third-party function: opaque result
             if other is not None and fn[2] in other.funcs:
                 return self.sub_interp(other).call_function(other.funcs[fn[2]], args, e, kwargs)
+            if other is not None and fn[2] in other.imports:
+                try:
+                    node = other.func(fn[2], self.rule)
+                except Unrecognised:
+                    node = None
+                if node is not None:
+                    return self.call_function(node, args, e, kwargs)
         if fn is None or isinstance(fn, (bool, int, float, str, AList, ADict)):
             raise RaiseSig('TypeError', (f'{type(fn).__name__} object is not callable',), e)
         self.bad(e, 'call outside the interpreted subset')
@@ -1275,7 +1304,7 @@ class Interp:
         mods = [self.mod]
         repo = getattr(self, 'repo', None)
         if repo is not None:
-            for nm in ('value', 'parser', 'library', 'runtime', 'model', 'data', 'options', 'bare'):
+            for nm in _package_modules(repo):
                 try:
                     m = repo.module(nm)
                 except Exception:
@@ -1302,7 +1331,7 @@ class Interp:
         mods = [self.mod]
         repo = getattr(self, 'repo', None)
         if repo is not None:
-            for nm in ('value', 'parser', 'library', 'runtime', 'model', 'data', 'options', 'bare'):
+            for nm in _package_modules(repo):
                 try:
                     m = repo.module(nm)
                 except Exception:
@@ -1460,6 +1489,12 @@ class Interp:
             sub._subs = cache
             cache[other.name] = sub
         sub = cache[other.name]
+        if sub is not self:
+            # scenario state that the harness rebinds between runs (outcome, behaviour tables, local zone, file tables ...) is kept current in every module view
+            sd = sub.__dict__
+            for k, v in self.__dict__.items():
+                if k[0] != '_' and k not in ('mod', 'globals', 'depth') and sd.get(k, sd) is not v:
+                    sd[k] = v
         sub.depth = self.depth
         return sub
 
@@ -1739,6 +1774,13 @@ class Interp:
                 other = None
             if other is not None and fn[2] in other.funcs:
                 return self.sub_interp(other).call_function(other.funcs[fn[2]], list(args), at)
+            if other is not None and fn[2] in other.imports:
+                try:
+                    node = other.func(fn[2], self.rule)
+                except Unrecognised:
+                    node = None
+                if node is not None:
+                    return self.call_function(node, list(args), at)
         self.bad(at, f'value {fn!r} is not callable')
 
     def call_method(self, base, m, args, e):
@@ -2083,7 +2125,7 @@ class Interp:
         mods = [self.mod]
         repo = getattr(self, 'repo', None)
         if repo is not None:
-            for nm in ('value', 'parser', 'library', 'runtime', 'model', 'data', 'options', 'bare'):
+            for nm in _package_modules(repo):
                 try:
                     mods.append(repo.module(nm))
                 except Exception:
@@ -2290,6 +2332,14 @@ class Interp:
             for cls, nm in ((bool, 'bool'), (int, 'int'), (float, 'float'), (str, 'str'), (AList, 'list'), (ADict, 'dict')):
                 if isinstance(v, cls):
                     return ('builtin', nm)
+            if isinstance(v, ModuleFunc) or (isinstance(v, tuple) and v and v[0] in ('partial', 'extern', 'closure', 'bound')):
+                return ('typeof', 'function' if not (isinstance(v, tuple) and v[0] == 'partial') else 'functools.partial')
+            if isinstance(v, tuple) and not (v and isinstance(v[0], str) and v[0] in ('class', 'builtin', 'typeof', 'hostattr', 'module', 'super', 'itemgetter')):
+                return ('builtin', 'tuple')
+            if getattr(v, '_host_object', False):
+                return ('typeof', type(v.v).__module__ + '.' + type(v.v).__name__)
+            if isinstance(v, ASet):
+                return ('typeof', 'set')
             self.bad(e, 'type() of an abstract value')
         if name in ('getattr', 'hasattr') and len(args) >= 2 and isinstance(args[1], str):
             obj, attr = args[0], args[1]
@@ -2363,6 +2413,10 @@ class Interp:
         return NotImplemented
 
     def call_function(self, node, args, at, kwargs=None):
+        home = getattr(node, '_module', None)
+        if home is not None and home is not self.mod and getattr(self, 'repo', None) is not None and getattr(home, 'repo', None) is self.repo:
+            # a function of another module of the package (reached through a re-export or a function value): evaluated in its own namespace
+            return self.sub_interp(home).call_function(node, args, at, kwargs)
         if self.depth > self.max_depth:
             self.bad(at, 'call depth exceeded')
         params = [a.arg for a in node.args.args]
